@@ -7,7 +7,7 @@ ID = "C01"
 LEVEL = "proof"
 HERE = os.path.dirname(os.path.abspath(__file__))
 _PCXX = os.path.join(HERE, "pcxx.py")          # parallel compile wrapper: the same source in 8 parts
-_NPARTS = "-DC01_NPARTS=8"
+_NPARTS = "-DC01_NPARTS=10"
 HARNESSES = [
     {"name": "main", "src": "harness.cpp", "compiler": _PCXX, "flags": ["-O1", "-DTETL_ENABLE_CONTRACT_CHECKS=1", _NPARTS]},
     {"name": "asan", "src": "harness.cpp", "compiler": _PCXX,
@@ -15,8 +15,11 @@ HARNESSES = [
      "thorough_only": True},
 ]
 RULE = ("a case = a whole operation history on two objects of one flavour: static_vector of int / Pod (trivial storage), Tracked / "
-        "NxCopy (noexcept non-trivial copy, self-checking) / std::string / MoveOnly (non-trivial storage); stack over static_vector of "
-        "int / Tracked / std::string / MoveOnly; inplace_vector of the same six element kinds; capacities {0,1,2,3,4,8,16,254,255,256} and "
+        "NxCopy (noexcept non-trivial copy, self-checking) / TdcCopy (trivial default ctor + dtor, user copy/move) / std::string / MoveOnly "
+        "(non-trivial storage, Tracked and MoveOnly also at 254/255/256); stack over static_vector of "
+        "int / Tracked / std::string / MoveOnly; inplace_vector of the same seven element kinds; range members with pointer / reverse_iterator / "
+        "bidirectional / forward / single-pass input / random-access class sources; arguments that are elements of the vector itself; "
+        "capacities {0,1,2,3,4,8,16,254,255,256} and "
         "{65534,65535,65536}; exhaustive part: every content state of length <= cap <= 3 over values {1,18,35} x every single "
         "operation (54 static_vector, 18 stack, 24 inplace_vector operations of the model) with every position/count/index "
         "argument in [-1, size+1]; short exhaustive histories for inplace_vector and stack; random part: seeded capacity-aware "
@@ -32,11 +35,11 @@ SV_CAPS = [0, 1, 2, 3, 4, 8, 16, 254, 255, 256]
 BIG_CAPS = [65534, 65535, 65536]
 # flavour -> capacities instantiated in harness.cpp
 CAPS = {
-    "sv_int": SV_CAPS + BIG_CAPS, "sv_trk": [0, 1, 3, 4, 16], "sv_pod": [3, 16], "sv_nxc": [1, 3, 4], "sv_str": [0, 1, 3, 4],
-    "sv_mov": [0, 1, 3, 4, 16],
-    "stack": [0, 1, 3, 4, 16, 256], "st_trk": [1, 3, 4], "st_str": [1, 3], "st_mov": [1, 3, 4],
-    "iv_int": SV_CAPS + BIG_CAPS, "iv_trk": [0, 1, 3, 4, 16], "iv_nxc": [1, 3, 4], "iv_mov": [0, 1, 3, 4], "iv_str": [1, 3, 4],
-    "iv_pod": [3, 16],
+    "sv_int": SV_CAPS + BIG_CAPS, "sv_trk": [0, 1, 3, 4, 16, 254, 255, 256], "sv_pod": [3, 16], "sv_nxc": [1, 3, 4], "sv_str": [0, 1, 3, 4],
+    "sv_mov": [0, 1, 3, 4, 16, 255, 256],
+    "stack": [0, 1, 3, 4, 16, 256], "st_trk": [1, 3, 4, 255, 256], "st_str": [1, 3], "st_mov": [1, 3, 4],
+    "iv_int": SV_CAPS + BIG_CAPS, "iv_trk": [0, 1, 3, 4, 16, 254, 255, 256], "iv_nxc": [1, 3, 4], "iv_mov": [0, 1, 3, 4], "iv_str": [1, 3, 4],
+    "iv_pod": [3, 16], "iv_tdc": [1, 3, 4], "sv_tdc": [3, 4],
 }
 # operations that need a copyable element type (the harness answers `unsupported-step` for them on MoveOnly)
 NEEDS_COPY = {"icr", "inn", "irg", "rsv", "asn", "asr", "cpa", "cpc", "sca", "ctv", "ctr", "cpi", "ivc", "fcc", "irk", "ask", "ctk", "pba", "eba", "ica", "ina", "rva"}
@@ -388,14 +391,14 @@ def gen(tier, rng):
         exhaustive_single(out, "sv_int", cap, vals, full_contents=(cap <= 2 or not quick))
         if cap in CAPS["sv_trk"]:
             exhaustive_single(out, "sv_trk", cap, vals, full_contents=(cap <= 1 or not quick))
-    for fl in ("sv_nxc", "sv_str", "sv_mov", "sv_pod"):
+    for fl in ("sv_nxc", "sv_str", "sv_mov", "sv_pod", "sv_tdc"):
         for cap in ([3] if quick else CAPS[fl]):
             if cap in CAPS[fl] and cap <= 4:
                 exhaustive_single(out, fl, cap, vals, full_contents=False, rng=rng, keep=(0.5 if quick else 1.0))
     for fl in ("stack", "st_trk", "st_str", "st_mov"):
         for cap in [c for c in CAPS[fl] if c <= (3 if quick else 4)]:
             exhaustive_single(out, fl, cap, vals, full_contents=not quick)
-    for fl in ("iv_int", "iv_trk", "iv_nxc", "iv_mov", "iv_str", "iv_pod"):
+    for fl in ("iv_int", "iv_trk", "iv_nxc", "iv_mov", "iv_str", "iv_pod", "iv_tdc"):
         for cap in [c for c in CAPS[fl] if c <= (3 if quick else 4)]:
             exhaustive_single(out, fl, cap, vals, full_contents=(fl == "iv_int" or not quick))
     # ---- inplace_vector and stack: exhaustive short histories
@@ -409,7 +412,7 @@ def gen(tier, rng):
                 continue   # one per history is enough
             out.append(hist("iv_int", cap, list(h)))
             if cap != 0 and (not quick or rng.random() < 0.25):
-                out.append(hist(rng.choice(["iv_trk", "iv_nxc", "iv_str"]), cap, list(h)))
+                out.append(hist(rng.choice(["iv_trk", "iv_nxc", "iv_str", "iv_tdc"]), cap, list(h)))
         for h in itertools.product(st_alpha, repeat=depth):
             if not quick or rng.random() < 0.5:
                 out.append(hist("stack", cap, list(h)))
@@ -496,14 +499,24 @@ def gen(tier, rng):
                                         f"era 0 {cap - 2}", f"irv 0 {cap - 2} 5", "pb 0 3"]))
         out.append(hist("iv_int", cap, [f"fil 0 {cap - 1} 1", "tpb 0 18", "tem 0 35", "mxs 0", "bk 0", f"at 0 {cap - 1}", f"sat 0 {cap - 1} 7",
                                         "cpa 1", "pop 0", "tpr 0 3", "upb 0 4"]))
+    # ---- the same boundary walk for the NON-TRIVIAL storage implementations at the uint8 / uint16 boundary
+    for cap in (254, 255, 256):
+        out.append(hist("sv_trk", cap, [f"inn 0 0 {cap - 1} 1", "pb 0 18", "mxs 0", "bk 0", f"at 0 {cap - 1}", f"sat 0 {cap - 1} 7", "pop 0",
+                                        f"era 0 {cap - 2}", f"irv 0 {cap - 2} 5", "ebr 0 3", "rel", "swp", f"rsz 1 {cap - 3}", f"rsz 1 {cap}"]))
+        out.append(hist("iv_trk", cap, [f"fil 0 {cap - 1} 1", "tpb 0 18", "tem 0 35", "mxs 0", "bk 0", f"at 0 {cap - 1}", f"sat 0 {cap - 1} 7",
+                                        "cpa 1", "pop 0", "tpr 0 3", "upb 0 4", "ivc 1"]))
+        if cap != 254:
+            out.append(hist("sv_mov", cap, [f"rsz 0 {cap - 1}", "pb 0 18", "mxs 0", "bk 0", "pop 0", f"era 0 {cap - 2}", f"irv 0 {cap - 2} 5", "ebr 0 3",
+                                            "swp", f"rsz 1 {cap}"]))
+            out.append(hist("st_trk", cap, [f"fcr 0 {L([7] * (cap - 1))}", "ebr 0 3", "bk 0", "pop 0", "pb 0 4", "siz 0", "cpa 1", "rel", "mvc 0"]))
     if not quick:
         for cap in BIG_CAPS:
             out.append(hist("sv_int", cap, [f"inn 0 0 {cap} 35", "mxs 0", f"at 0 {cap}", "pop 0", "emp 0 0 1", "clr 0", f"inn 0 0 {cap + 1} 1"]))
             out.append(hist("iv_int", cap, [f"fil 0 {cap + 7} 35", "tpr 0 1", "mva 1", f"fil 0 {cap - 2} 18", "tem 0 1", "tem 0 3", "tem 0 5", "uem 0 7"]))
     # ---- random capacity-aware histories
     n_rand = 2600 if quick else (20000 if tier == "search" else 120000)
-    flavours = ["sv_int"] * 5 + ["sv_trk"] * 2 + ["sv_nxc", "sv_str", "sv_mov", "sv_mov", "sv_pod"] + \
-               ["stack", "stack", "st_trk", "st_str", "st_mov"] + ["iv_int"] * 3 + ["iv_trk", "iv_nxc", "iv_mov", "iv_str", "iv_pod"]
+    flavours = ["sv_int"] * 5 + ["sv_trk"] * 2 + ["sv_nxc", "sv_str", "sv_mov", "sv_mov", "sv_pod", "sv_tdc"] + \
+               ["stack", "stack", "st_trk", "st_str", "st_mov"] + ["iv_int"] * 3 + ["iv_trk", "iv_nxc", "iv_mov", "iv_str", "iv_pod", "iv_tdc"]
     for _ in range(n_rand):
         fl = rng.choice(flavours)
         cap = rng.choice([c for c in CAPS[fl] if c < 60000])
